@@ -275,7 +275,9 @@ def qv4(ctx: Ctx):
                             if names and not others and set(names) <= {"list", "tuple"}:
                                 narrow = True
                     notstr = truth(("cmp", "Is", ("call", ("builtin", "type"), (val,), ()), ("builtin", "str")), f) is False
-                    oks.append(narrow and notstr)
+                    # a list or tuple instance is never a str (the two layouts cannot be combined in one class), so the
+                    # isinstance test alone excludes strings; `type(v) is not str` in front of it is redundant
+                    oks.append(narrow)
                 ctx.ob(rule, fi.qual, f"expansion of {show(val)}", all(oks),
                        "a mapping value is iterated into repeated keys without being known to be a list or tuple (and not a "
                        "str): str subclasses would be split into characters and bytes accepted", where(fi, e.node),
